@@ -216,8 +216,12 @@ def c12(sc, tr):
         text = tr.files[name]
         try:
             I = rm.parse(text, na, True)
-        except Exception:
-            res['skipped'] = 'c08-class:unparsable'
+        except Exception as e:
+            # a file whose lists cannot be read cannot rank "exactly the
+            # agents that find them acceptable"
+            res['violations'].append(
+                ('second-side-list-mismatch', 'unreadable-file',
+                 {'file': name, 'error': repr(e)[:200], 'params': p}))
             continue
         want = [set() for _ in range(I.n3)]
         multi = False
